@@ -1,11 +1,19 @@
 (* C34 correspondence: the real HandleDirective decision vs the model's. *)
 From Bifrost Require Export Lib.Base Lib.StrOps Handlers.Model.
 
+Fixpoint tbl_get (tbl : list (bytes * option bytes)) (k : bytes) : option bytes :=
+  match tbl with
+  | [] => None
+  | (k', v) :: t => if bytes_eqb k k' then v else tbl_get t k
+  end.
+
 Inductive c34_case :=
 | HEcho (c : echo_cfg) (s : stream) (obs : bool)
 | HFwd (c : fwd_cfg) (s : stream) (obs : bool)
 | HRelay (c : relay_cfg) (s : stream) (obs : bool)
 | HAccept (c : accept_cfg) (s : stream) (obs : bool)
+(* raw configuration strings; tbl = peer.IDB58Decode on each entry; obs 0 declined 1 offered 2 constructor error *)
+| HAcceptRaw (cfg_proto cfg_local : bytes) (remote_strs : list bytes) (tbl : list (bytes * option bytes)) (s : stream) (obs : nat)
 | HSrpc (c : srpc_cfg) (s : stream) (local_str : bytes) (obs : bool)
 | HPubsub (c : pubsub_cfg) (s : stream) (obs : bool)
 (* obs_kind: 0 declined, 1 control handler, 2 solicited handler (with its hash string), 3 panic *)
@@ -17,6 +25,9 @@ Definition c34_agree (c : c34_case) : bool :=
   | HFwd c s o => Bool.eqb (forwarding_offers c s) o
   | HRelay c s o => Bool.eqb (relay_offers c s) o
   | HAccept c s o => Bool.eqb (accept_offers c s) o
+  | HAcceptRaw cp cl strs tbl s o =>
+      forallb (fun x => existsb (fun kv => bytes_eqb x (fst kv)) tbl) strs
+      && Nat.eqb (accept_from_config (fun x => tbl_get tbl x) cp cl strs s) o
   | HSrpc c s ls o => Bool.eqb (srpc_offers c s ls) o
   | HPubsub c s o => Bool.eqb (pubsub_offers c s) o
   | HSolicit c s k h =>
